@@ -7,7 +7,9 @@ from trashcli.fstab.volume_of_impl import VolumeOfImpl
 
 class RealVolumeOf(VolumeOf):
     def __init__(self):
-        self.impl = VolumeOfImpl(RealIsMount(), os.path.abspath)
+        # realpath: a directory reached through a symlink is on the volume
+        # the link leads to, not on the volume the link is on
+        self.impl = VolumeOfImpl(RealIsMount(), os.path.realpath)
 
     def volume_of(self, path):
         return self.impl.volume_of(path)
